@@ -22,9 +22,9 @@ type pqOp struct {
 }
 
 type pqObs struct {
-	Kind  string   `json:"kind"` // none crash items len
+	Kind  string     `json:"kind"`            // none crash items len
 	Items [][2]int64 `json:"items,omitempty"` // (priority bits as signed order key, value)
-	Len   int      `json:"len,omitempty"`
+	Len   int        `json:"len,omitempty"`
 }
 
 type pqCase struct {
